@@ -68,8 +68,8 @@ def _open_excl():
 
 def plan(tier):
     q = tier == "quick"
-    out = [{"name": "main", "examples": 32 if q else 3000, "shards": 8 if q else 16},
-           {"name": "hostile", "examples": 16 if q else 800, "shards": 8 if q else 16}]
+    out = [{"name": "main", "examples": 32 if q else 2000, "shards": 8 if q else 16},
+           {"name": "hostile", "examples": 16 if q else 600, "shards": 8 if q else 16}]
     for f in findings.open_for(PROPERTY):
         if f.exclude_profile:
             out.append({"name": "probe:" + f.id, "examples": 16 if q else 400, "shards": 4})
